@@ -146,6 +146,18 @@ theorem import_terminates (src : Src) (support : List Nat) (hsup : ∀ o, src o 
     show (clonePages f src before (St.init n)).2.pending = []
     rw [clonePages_pending]; rfl)
 
+/-- **The fuel is a proof device only**: once a page import does not run out of fuel, more fuel changes neither
+    the result nor the state — together with `import_terminates` the model's answer for fuel > number of
+    source objects is *the* answer of the unbounded recursion in the code. -/
+theorem answer_independent_of_fuel (src : Src) (f : Nat) (p : PageM) (st : St)
+    (h : (clonePage f src p st).1 ≠ .oof) : clonePage (f + 1) src p st = clonePage f src p st :=
+  clonePage_fuel_mono src f p st h
+
+/-- … likewise for a single clone request and any larger amount of fuel. -/
+theorem clone_independent_of_fuel (src : Src) (f f' : Nat) (hle : f ≤ f') (e : Edge) (st : St)
+    (h : (cloneRef f src e st).1 ≠ .oof) : cloneRef f' src e st = cloneRef f src e st :=
+  cloneRef_fuel_le src f f' hle e st h
+
 /-- **Non-vacuity of "when importing succeeds"**: over a source whose references all lead to existing objects
     and go down a rank (no cycle), the import of a page succeeds after any history — the cycle guard and the
     error paths never reject a well-formed acyclic page. -/
